@@ -107,7 +107,7 @@ impl Monitor for M {
             ("vm:expected_error:DimensionTooLarge", f(5000, 250_000)),
             ("vm:expected_error:OverflowMultiply", f(2000, 50_000)),
             ("vm:expected_error:OverflowDivide", f(500, 10_000)),
-            ("vm:expected_error:IllegalFilll", 0),
+            ("vm:expected_error:IllegalFilll", f(500, 10_000)),
             ("vm:statements_without_error", f(1_500_000, 40_000_000)),
             ("seen:radix8", f(5000, 250_000)),
             ("seen:radix16", f(5000, 250_000)),
